@@ -10,7 +10,7 @@ use rsdd::util::semirings::RealSemiring;
 use serde_json::{json, Value};
 use std::collections::HashMap;
 
-const W: [(u32, u32); 5] = [(1, 1), (1, 2), (2, 3), (3, 5), (5, 2)];
+const W: [(u32, u32); 7] = [(1, 1), (1, 2), (2, 3), (3, 5), (5, 2), (0, 3), (2, 0)];
 
 fn weight_sets(nv: usize, tier: Tier) -> Vec<Vec<(u32, u32)>> {
     // full product of the alphabet for <= 3 variables, a fixed slice above
@@ -190,7 +190,7 @@ fn run_config(n: usize, extra: usize, order: &[usize], table_cap: usize, ctx: &C
 
 pub fn run(ctx: &Ctx) -> Report {
     let mut rep = Report::new(
-        "every Boolean function of n variables (n <= 3 quick, 4 thorough; plus one unused builder variable) x every variable order x every smoothing depth k = 0..#vars: function preserved, every path tests levels 0..k-1 exactly once in order, and for k = #vars the count under integer (low, high) weights from {(1,1),(1,2),(2,3),(3,5),(5,2)} equals the brute-force sum; distinct = (function, order, depth), non-trivial = function not constant",
+        "every Boolean function of n variables (n <= 3 quick, 4 thorough; plus one unused builder variable) x every variable order x every smoothing depth k = 0..#vars: function preserved, every path tests levels 0..k-1 exactly once in order, and for k = #vars the count under integer (low, high) weights from {(1,1),(1,2),(2,3),(3,5),(5,2),(0,3),(2,0)} equals the brute-force sum; distinct = (function, order, depth), non-trivial = function not constant",
     );
     let mut items: Vec<(usize, usize, Vec<usize>, usize, usize)> = Vec::new();
     let ns: Vec<(usize, usize)> = match ctx.tier {
@@ -220,7 +220,7 @@ pub fn run(ctx: &Ctx) -> Report {
     rep.distinct_nontrivial = rep.transitions;
     rep.bound("functions", json!(match ctx.tier { Tier::Quick => "all of F(1..3), with and without one unused variable", Tier::Thorough => "all of F(1..4), with and without one unused variable" }));
     rep.bound("orders", json!("all permutations; plus managers created over the first m variables (all permutations) and grown to #vars by new_var, m = 0..#vars-1"));
-    rep.bound("weights", json!("full product of the 5-pair alphabet for <= 3 variables (<=2 in quick), a 13-element rule-defined slice above"));
+    rep.bound("weights", json!("full product of the 7-pair alphabet for <= 3 variables (<=2 in quick), a 13-element rule-defined slice above"));
     rep.sample(json!({"function": "0xf0 (= x2)", "order": [0, 1, 2], "depth": 3, "expected_paths": "x0,x1,x2 on every path"}));
     rep.assumptions.push("integer weights keep f64 arithmetic exact; the counts are compared with ==".into());
     rep
